@@ -1,36 +1,37 @@
 // goext: small go/ast translators and extractors that regenerate Lean model parts
 // from /repo's current source. Standard library only.
 //
-//	goext intfn   -pkg <Namespace> -o out.lean file.go Func1 Recv.Method2 ...
-//	goext fields  -o out.lean  (digest field lists, struct inventories)
-//	goext sites   -o out.lean  (nondeterminism / unchecked-assertion inventories)
-//	goext hostapi -o out.lean  (read-only guard IR of the VM host callbacks)
+//	goext intfn  -ns <Namespace> -o out.lean file.go Func1 Recv.Method2 ...   (integer functions)
+//	goext fields -repo /repo -o out.lean                                      (digest field lists, struct inventories)
+//	goext <other> ...   sub-commands register themselves in their own file: func init() { register("name", cmdName) }
 package main
 
 import (
 	"fmt"
 	"os"
+	"sort"
 )
 
+var commands = map[string]func([]string) error{}
+
+func register(name string, f func([]string) error) { commands[name] = f }
+
+func init() {
+	register("intfn", cmdIntFn)
+	register("fields", cmdFields)
+}
+
 func main() {
-	if len(os.Args) < 2 {
-		fmt.Fprintln(os.Stderr, "usage: goext intfn|fields|sites|hostapi ...")
+	if len(os.Args) < 2 || commands[os.Args[1]] == nil {
+		names := []string{}
+		for k := range commands {
+			names = append(names, k)
+		}
+		sort.Strings(names)
+		fmt.Fprintln(os.Stderr, "usage: goext <command> ...; commands:", names)
 		os.Exit(2)
 	}
-	var err error
-	switch os.Args[1] {
-	case "intfn":
-		err = cmdIntFn(os.Args[2:])
-	case "fields":
-		err = cmdFields(os.Args[2:])
-	case "sites":
-		err = cmdSites(os.Args[2:])
-	case "hostapi":
-		err = cmdHostAPI(os.Args[2:])
-	default:
-		err = fmt.Errorf("unknown command %q", os.Args[1])
-	}
-	if err != nil {
+	if err := commands[os.Args[1]](os.Args[2:]); err != nil {
 		fmt.Fprintln(os.Stderr, "goext:", err)
 		os.Exit(1)
 	}
